@@ -58,10 +58,21 @@ pub struct Elem {
 }
 
 /// dirty destination: holds an unrelated ciphertext of different size/level
+/// A destination argument is an output buffer: whatever it held before must not matter. So it holds something different on
+/// every call of a case — any level (including the one the result will live on), size 2..5 (smaller, equal, larger than the
+/// result), either representation flag, a stale BGV correction factor, a stale scale, non-zero data.
 pub fn dirty(kit: &Kit) -> Ciphertext {
+    let k = crate::rt::case_tick();
+    let nl = kit.levels.len() as u64;
     let mut c = Ciphertext::new();
-    c.resize(&kit.ctx, kit.levels.last().unwrap().parms_id(), 4);
-    for (i, x) in c.data_mut().iter_mut().enumerate() { *x = (i as u64) & 1; }
+    c.resize(&kit.ctx, kit.levels[(k % nl) as usize].parms_id(), 2 + ((k / nl) % 4) as usize);
+    for (i, x) in c.data_mut().iter_mut().enumerate() { *x = ((i as u64) ^ k) & 1; }
+    c.set_is_ntt_form((k >> 2) & 1 == 1);
+    match kit.spec.scheme {
+        SchemeType::BGV => { let t = kit.t(); if t > 3 { c.set_correction_factor(2 + k % (t - 2)); } }
+        SchemeType::CKKS => c.set_scale(1.5 * (1u64 << (k % 7)) as f64),
+        _ => {}
+    }
     c
 }
 
